@@ -858,6 +858,115 @@ Proof.
   lia.
 Qed.
 
+(* ---------------- C02 for programs: no lost wakeups ---------------- *)
+
+(* a poll that decides Pending registers its waker at that very micro-step *)
+Lemma prog_pending_registers (s s' : cstate V) t th th' k :
+  nth_error (c_threads s) t = Some th -> t_op th = CPoll k ->
+  cstep true s t = Advanced s' ->
+  nth_error (c_threads s') t = Some th' -> t_pc th' = PPollDecided Pending ->
+  t_pc th = PPollMetaLocked /\ In k (c_wakers s').
+Proof.
+  intros Hth Hop H Hth' Hpc.
+  cstep_inv H; injection Hth as <-; cbn [t_op] in Hop; try discriminate Hop;
+    cbn [c_threads with_pc upd_thread mk] in Hth';
+    erewrite nth_error_set_nth_eq in Hth' by eauto; injection Hth' as <-;
+    cbn [t_pc] in Hpc; try discriminate Hpc.
+  injection Hop as ->. split; [reflexivity|].
+  cbn [c_wakers with_pc upd_thread mk]. apply in_or_app. right. left. reflexivity.
+Qed.
+
+(* from s to s' the list of woken wakers only grows, and every registered waker is still registered
+   or among the newly woken *)
+Definition keeps (s s' : cstate V) : Prop :=
+  exists w, c_woken s' = c_woken s ++ w /\
+            forall k, In k (c_wakers s) -> In k (c_wakers s') \/ In k w.
+
+Lemma keeps_refl s : keeps s s.
+Proof. exists []. split; [symmetry; apply app_nil_r|]. intros k Hk. left; exact Hk. Qed.
+
+Lemma keeps_trans s1 s2 s3 : keeps s1 s2 -> keeps s2 s3 -> keeps s1 s3.
+Proof.
+  intros (w1 & Hw1 & Hk1) (w2 & Hw2 & Hk2). exists (w1 ++ w2). split.
+  - rewrite Hw2, Hw1. symmetry. apply app_assoc.
+  - intros k Hk. destruct (Hk1 k Hk) as [Hin|Hin].
+    + destruct (Hk2 k Hin) as [Hin2|Hin2]; [left; exact Hin2|right; apply in_or_app; right; exact Hin2].
+    + right. apply in_or_app. left; exact Hin.
+Qed.
+
+Lemma keeps_step s t s' : cstep true s t = Advanced s' -> keeps s s'.
+Proof.
+  intros H. unfold keeps.
+  cstep_inv H; cbn [c_woken c_wakers with_pc upd_thread mk];
+    first [ exists (c_wakers s); split; [reflexivity|]; intros k0 Hk0; right; exact Hk0
+          | exists []; split; [symmetry; apply app_nil_r|]; intros k0 Hk0; left;
+            first [exact Hk0 | apply in_or_app; left; exact Hk0] ].
+Qed.
+
+Lemma keeps_mark s t w : keeps s (mark_waiting s t w).
+Proof.
+  exists []. mark_rw s t w. split; [symmetry; apply app_nil_r|]. intros k Hk. left; exact Hk.
+Qed.
+
+Lemma keeps_wake fuel : forall s ids acc, keeps s (fst (wake_blocked true fuel s ids acc)).
+Proof.
+  induction fuel as [|f IH]; intros s ids acc; cbn [wake_blocked].
+  - apply keeps_refl.
+  - destruct ids as [|t rest]; [apply keeps_refl|].
+    destruct (nth_error (c_threads s) t) as [th|]; [|apply IH].
+    destruct (t_waiting th); [|apply IH].
+    destruct (cstep true s t) as [s'| |] eqn:E; try apply IH.
+    eapply keeps_trans; [exact (keeps_step _ _ _ E)|].
+    eapply keeps_trans; [apply (keeps_mark s' t false)|apply IH].
+Qed.
+
+Lemma keeps_release s t : keeps s (fst (fst (release true s t))).
+Proof.
+  unfold release. destruct (cstep true s t) as [s'| |] eqn:E.
+  - pose proof (keeps_wake (length (c_threads s)) s' (seq 0 (length (c_threads s))) []) as Hw.
+    destruct (wake_blocked true (length (c_threads s)) s' (seq 0 (length (c_threads s))) [])
+      as [s'' unb].
+    cbn [fst] in *. eapply keeps_trans; [exact (keeps_step _ _ _ E)|exact Hw].
+  - cbn [fst]. apply keeps_mark.
+  - cbn [fst]. apply keeps_refl.
+Qed.
+
+Lemma keeps_prelease p t : keeps (p_s p) (p_s (prelease p t)).
+Proof.
+  unfold prelease.
+  destruct (nth_error (c_threads (p_s p)) t) as [th|]; [|cbn [p_s]; apply keeps_release].
+  destruct (nth_error (p_rest p) t) as [[|next more]|]; try (cbn [p_s]; apply keeps_release).
+  destruct (is_done_pc (t_pc th)); cbn [p_s]; [|apply keeps_release].
+  exists []. cbn [upd_thread c_woken c_wakers]. split; [symmetry; apply app_nil_r|].
+  intros k Hk. left; exact Hk.
+Qed.
+
+Lemma keeps_prun sched : forall p, keeps (p_s p) (p_s (prun p sched)).
+Proof.
+  induction sched as [|t rest IH]; intros p; cbn [prun fold_left].
+  - apply keeps_refl.
+  - eapply keeps_trans; [apply (keeps_prelease p t)|apply IH].
+Qed.
+
+(* ... and, whatever the threads' programs do afterwards and however they are scheduled, a
+   registered waker stays registered until it is woken: at any later point it is still on the list
+   or occurs among the wakers woken since *)
+Theorem prog_no_lost_wakeup (v : V) ver clones subs pending progs sched1 sched2 k :
+  value_ops (all_ops progs) ->
+  (forall k, In (CPoll k) (all_ops progs) -> k < length subs) ->
+  1 <= clones ->
+  let p1 := prun (pinit v ver clones subs pending progs) sched1 in
+  let p2 := prun p1 sched2 in
+  In k (c_wakers (p_s p1)) ->
+  In k (c_wakers (p_s p2)) \/
+  In k (skipn (length (c_woken (p_s p1))) (c_woken (p_s p2))).
+Proof.
+  intros _ _ _ p1 p2 Hin.
+  destruct (keeps_prun sched2 p1) as (w & Hw & Hk). fold p2 in Hw, Hk.
+  rewrite Hw. rewrite skipn_app, skipn_all, Nat.sub_diag. cbn [skipn app].
+  apply Hk. exact Hin.
+Qed.
+
 End Prog.
 
 (* non-vacuity: thread 0 runs set 7 then get, thread 1 runs set 9 then set 5, thread 2 polls twice *)
@@ -870,3 +979,4 @@ Proof. vm_compute. split; reflexivity. Qed.
 
 Print Assumptions prog_linearizable.
 Print Assumptions prog_real_time.
+Print Assumptions prog_no_lost_wakeup.
